@@ -152,7 +152,12 @@ func RenderWithLines(p *Program, l Layout) (string, map[int]int) {
 			s += "“" + im.Name + "”"
 		}
 		if len(im.Items) > 0 {
-			s += r.dot() + strings.Join(im.Items, "、")
+			sep := "、"
+			if r.l.Breaks && len(im.Items) > 1 && r.l.coin() {
+				// the item list continues on the next line(s), after the separator
+				sep = "、" + r.l.eol() + strings.Repeat(r.l.indent(), 1+r.l.Rng.Intn(2))
+			}
+			s += r.dot() + strings.Join(im.Items, sep)
 		}
 		// 导入 statements are separated like other statements: by a line break or by ；
 		if r.l.Semis && len(r.lines) > 0 && strings.HasPrefix(r.lines[len(r.lines)-1], "导入") && r.l.coin() {
@@ -161,10 +166,26 @@ func RenderWithLines(p *Program, l Layout) (string, map[int]int) {
 		}
 		r.push(s)
 	}
+	body := p.Body
 	if len(p.Inputs) > 0 {
-		r.push("输入" + strings.Join(p.Inputs, "、"))
+		in := "输入" + strings.Join(p.Inputs, "、")
+		// the sections of a program are separated like statements: the 输入 line may stand after a
+		// ； on the (last) line of the imports
+		if r.l.Semis && len(p.Imports) > 0 && len(r.lines) > 0 && r.l.Rng != nil && r.l.Rng.Intn(3) == 0 {
+			r.lines[len(r.lines)-1] += r.l.p("；", ";") + in
+		} else {
+			r.push(in)
+		}
+	} else if r.l.Semis && len(p.Imports) > 0 && len(r.lines) > 0 && len(body) > 0 && simple(body[0]) && r.l.Rng != nil && r.l.Rng.Intn(3) == 0 {
+		// … and so may the first statement
+		if _, tagged := body[0].(Tagged); !tagged {
+			if a := r.simpleStmt(body[0]); a != "" && !strings.ContainsAny(a, "\r\n") {
+				r.lines[len(r.lines)-1] += r.l.p("；", ";") + a
+				body = body[1:]
+			}
+		}
 	}
-	r.block(p.Body, 0)
+	r.block(body, 0)
 	r.catches(p.Catches, 0)
 	return strings.Join(r.lines, l.eol()) + l.eol(), r.LineOf
 }
